@@ -42,7 +42,8 @@ type FilterSpec struct {
 	With       []int     `json:"with,omitempty"`
 	Without    []int     `json:"without,omitempty"`
 	Exclusive  bool      `json:"excl,omitempty"`
-	Rels       []RelSpec `json:"rels,omitempty"` // fixed relation targets
+	Rels       []RelSpec `json:"rels,omitempty"`  // fixed relation targets
+	Chain      bool      `json:"chain,omitempty"` // give the fixed targets in chained Relations() calls, one each
 	Registered bool      `json:"-"`
 	Queried    bool      `json:"-"`
 	Emptied    bool      `json:"-"` // a matching relation table was emptied while the filter was registered
